@@ -100,7 +100,11 @@ def run_sessions(ctx, label, sessions, **kw):
     """sessions: list of (cfg, events, ops). Runs the real code and the model, diffs, returns
     [(impl_out, model_out, ws, sock)]."""
     lines, impls, objs = [], [], []
-    for cfg, events, ops in sessions:
+    for si, (cfg, events, ops) in enumerate(sessions):
+        # every other session goes through the alternative spellings of the public API (next()/iteration, send_binary,
+        # send_bytes, send_text); the model line is the same
+        if si % 2:
+            ops = session.alias_ops(ops, f"{label}:{si}")
         out, ws, sock = session.run_impl(cfg, events, ops, **kw)
         lines.append(session.line(cfg, events, ops))
         impls.append(out)
